@@ -178,11 +178,10 @@ private theorem msLoop (L : SigLemmas) {cx : Ctx} {e : SEE} {cfg : Spec.Cfg} (hc
           · rw [if_pos hgt, if_pos hgt]; exact relVal_ok _
           · rw [if_neg hgt, if_neg hgt]
             exact ih sigs (isig + 1) (ikey + 1) hsrest hkrest
-      rw [hc.pretendKeys, contains_map_snd, hc.pretendMap]
-      by_cases hp : (e.pretendMap.any fun p => p.2 == key) = true
-      · rw [if_pos hp, if_pos hp]
+      by_cases hp : e.pretendKeys.contains key = true
+      · rw [if_pos hp, if_pos (by rw [← hc.pretendKeys key]; exact hp), hc.pretendPair sig key hp]
         exact relVal_bind (relVal_ok _) hK
-      · rw [if_neg hp, if_neg hp]
+      · rw [if_neg hp, if_neg (by rw [← hc.pretendKeys key]; exact hp)]
         refine relUnit_bind (L.sigEnc cx e cfg hc sig) (relUnit_bind (L.keyEnc cx e cfg hc key) ?_)
         refine relVal_bind ?_ hK
         rw [hc.ecdsa, hc.sv]; exact relVal_ok _
